@@ -79,8 +79,8 @@ def pack(ctx, data, kind, name):
     return p
 
 
-def grew(a, b):
-    return b > 2 * a + 16
+def grew(a, b, tight=False):
+    return b > (1.5 * a + 64 if tight else 2 * a + 16)
 
 
 def oracle(ctx):
@@ -89,7 +89,7 @@ def oracle(ctx):
     factor = 10
     table = []
 
-    def series(label, gen, sizes, kinds, bs, expect):
+    def series(label, gen, sizes, kinds, bs, expect, tight=False):
         """expect: dict mark -> 'flat' | known-finding signature | None (not judged)"""
         nonlocal ev
         for kind in kinds:
@@ -113,7 +113,7 @@ def oracle(ctx):
                 if kind != 'plain' and mk == 'blocks' and max(r[1]['blocks'] for r in rows) > 2:
                     fails.append({'signature': 'memory:streamed-reader-holds-more-than-2-blocks',
                                   'detail': f'{label} {kind} bs={bs}: blocks high {[r[1]["blocks"] for r in rows]}'})
-                if grew(a, b - allowance):
+                if grew(a, b - allowance, tight):
                     sig = 'memory:%s-high-grows-with-file-size' % mk if exp == 'flat' else exp
                     if sig:
                         fails.append({'signature': sig,
@@ -133,6 +133,11 @@ def oracle(ctx):
     # 3. messages spanning several blocks (7 lines of 30 bytes at --blocksz 64): known finding F8
     series('long64', lambda n: fixed_log(n, 7, 30), small, ('plain', 'gz'), 64,
            {'blocks': 'memory:retained-grows-with-multiblock-messages', 'lines': 'memory:retained-grows-with-multiblock-messages', 'syslines': 'flat'})
+    # 5. ordinary multi-line messages (one dated line + 60 continuation lines, ~3 KB, far smaller than a block) at the default
+    #    block size: every line of a printed message must be released, also when one of its inner lines crosses a block boundary
+    ml = [500_000, 8_000_000] + ([24_000_000] if ctx.thorough else [])
+    series('multiline', lambda n: fixed_log(n, 61, 48 + (n % 7)), ml, ('plain', 'gz'), None,
+           {'blocks': 'flat', 'lines': 'flat', 'syslines': 'flat'}, tight=True)
     # 4. line ends on block ends, plain file, default block size: known finding F15
     nonlocal_allow = None
     for kind, exp in (('plain', 'memory:block-ending-on-line-end-never-dropped'),):
@@ -153,7 +158,7 @@ def oracle(ctx):
     return {'evaluations': ev, 'distinct_nontrivial': ev, 'failures': fails, 'samples': samples,
             'rule': 'generated text logs growing x10 (x25 more in the thorough tier); blocks/lines/syslines high from --summary. Short messages at the default block '
                     'size on plain/gz/bz2/lz4 must not grow (flat = last <= 2*first+16; plain blocks allowed one per line end that meets a block end); streamed '
-                    'readers must report blocks high <= 2 always; long messages at --blocksz 64 and block-aligned lines are the known growth cases; distinct = runs'}
+                    'readers must report blocks high <= 2 always; 61-line messages of ~3 KB at the default block size (plain, gz; 0.5 -> 8 MB) must not grow either (tighter: last <= 1.5*first+64); long messages at --blocksz 64 and block-aligned lines are the known growth cases; distinct = runs'}
 
 
 def check(ctx):
